@@ -16,6 +16,7 @@ export const TAG_FORMS = [
   // user bindings named like identifiers the transform generates, and names that merely start with Fragment
   { form: 'memberGenNameRoot' }, { form: 'importDefaultGenName' }, { form: 'importDefaultFragLike' }, { form: 'importDefaultUnderscoreFrag' },
   { form: 'unboundPascal', name: 'Fragment1', fragLike: true },
+  { form: 'unboundPascal', name: 'I-Foo' }, { form: 'unboundPascal', name: 'Xwidget' },
   { form: 'unboundPascal', name: 'Foo' }, { form: 'unboundLower', name: 'foo' }, { form: 'unboundHyphen', name: 'foo-bar' },
   { form: 'Fragment' }, { form: 'KeepAlive' }, { form: 'Teleport' }, { form: 'Transition' },
 ];
